@@ -156,7 +156,7 @@ CLAIMS = {
             "sort order of the listing, the end current_file_name() reads and the end retention removes are consistent; "
             "file_name() formats prefix, period, id, ext in that order and read_file_name_ts() reads part 1 of split('.'); "
             "new files are named from the period of this batch's clock reading; only entries matching prefix and extension "
-            "enter the listing. Not claimed: prefix-extending sibling sets, calendar arithmetic, zero-padded name ordering. Round 2: the set directory returned for a template is tested for emptiness and replaced (fixed defect: bare file names); retention is a loop that deletes while len >= bound, bound = max_files.saturating_sub(1); the name's counter is the whole time elapsed since the start of the current day/hour/minute (exact field sets per arm) of the batch's one clock reading, which also gives the period; an opened file's period is parsed from the name of the very path that was opened.",
+            "enter the listing. Every numeric component of a name is written zero-padded to a fixed width, coarse to fine (format templates decoded from the constant the compiler emits). Not claimed: prefix-extending sibling sets, calendar arithmetic. Round 2: the set directory returned for a template is tested for emptiness and replaced (fixed defect: bare file names); retention is a loop that deletes while len >= bound, bound = max_files.saturating_sub(1); the name's counter is the whole time elapsed since the start of the current day/hour/minute (exact field sets per arm) of the batch's one clock reading, which also gives the period; an opened file's period is parsed from the name of the very path that was opened.",
             "custom MIR rules: truth table of a closure predicate, feasible-path must-pass-through, who-may-call, "
             "provenance of deleted paths, sibling agreement (sort/first/pop), format-argument order",
             "3/C11"),
